@@ -159,3 +159,84 @@ Section SimLife.
     eexists. eapply covers_trans; eauto.
   Qed.
 End SimLife.
+
+(* ---- the kernel's transitions, abstractly, with a ghost: the clock never goes back, a timer fires at or after its
+   deadline (and is removed from the table before its handler runs), anything else may happen at any instant ---- *)
+Section SimReach.
+  Variables (St api G : Type).
+  Variable handle : Z -> St -> event api -> St * list eff.
+  Variable gstep : Z -> St -> event api -> G -> G.
+  Variables (s0 : sim St) (g0 : G).
+
+  Inductive kreach : sim St -> G -> Prop :=
+  | kr_init : kreach s0 g0
+  | kr_tick s g t : kreach s g -> s_now s <= t -> kreach (mkSim t (s_tm s) (s_seq s) (s_st s)) g
+  | kr_event s g ev : kreach s g -> match ev with EvTimer _ => False | _ => True end ->
+      kreach (fst (dispatch St api handle s ev)) (gstep (s_now s) (s_st s) ev g)
+  | kr_timer s g tid d sq : kreach s g -> In (tid, d, sq) (s_tm s) -> d <= s_now s ->
+      kreach (fst (dispatch St api handle (mkSim (s_now s) (tm_remove tid (s_tm s)) (s_seq s) (s_st s)) (EvTimer tid)))
+             (gstep (s_now s) (s_st s) (EvTimer tid) g).
+
+  Definition kreachable (s : sim St) : Prop := exists g, kreach s g.
+
+  Lemma tm_next_due : forall tm t strict best x,
+    tm_next tm t strict best = Some x -> best = Some x \/ (In x tm /\ snd (fst x) <= t).
+  Proof.
+    induction tm as [|[[i d] sq] tm IH]; intros t strict best x H; cbn [tm_next] in H; [left; exact H|].
+    apply IH in H as [H|[H1 H2]]; [|right; split; [right; exact H1|exact H2]].
+    destruct ((if strict then d <? t else d <=? t) &&
+              match best with None => true | Some (_, d0, s0) => (d <? d0) || ((d =? d0) && (sq <? s0)%N) end) eqn:E;
+      [|left; exact H].
+    injection H as <-. right. split; [left; reflexivity|]. cbn [fst snd].
+    apply andb_true_iff in E as [E _]. destruct strict; lia.
+  Qed.
+
+  Lemma dispatch_now (s : sim St) ev : s_now (fst (dispatch St api handle s ev)) = s_now s.
+  Proof.
+    unfold dispatch. destruct (handle (s_now s) (s_st s) ev) as [st' es].
+    destruct (apply_effs (s_now s) (s_tm s) (s_seq s) es) as [[tm' sq'] o]. reflexivity.
+  Qed.
+
+  Lemma fire_due_kreach : forall fuel t strict late s,
+    (late = true -> t <= s_now s) -> kreachable s ->
+    kreachable (fst (fire_due St api handle fuel t strict late s)).
+  Proof.
+    induction fuel as [|f IH]; intros t strict late s Hl R; cbn [fire_due]; [exact R|].
+    destruct (tm_next (s_tm s) t strict None) as [[[tid d] sq]|] eqn:E; [|exact R].
+    apply tm_next_due in E as [E|[Hin Hd]]; [discriminate|]. cbn [fst snd] in Hd.
+    set (now' := if late then s_now s else Z.max (s_now s) d).
+    assert (Hn : s_now s <= now') by (unfold now'; destruct late; lia).
+    assert (Hd' : d <= now') by (unfold now'; destruct late; [specialize (Hl eq_refl)|]; lia).
+    destruct R as [g R].
+    pose proof (kr_timer _ _ tid d sq (kr_tick _ _ now' R Hn) Hin Hd') as R2. cbn [s_now s_tm s_seq s_st] in R2.
+    set (s1 := mkSim now' (tm_remove tid (s_tm s)) (s_seq s) (s_st s)) in *.
+    pose proof (dispatch_now s1 (EvTimer tid)) as N2.
+    destruct (dispatch St api handle s1 (EvTimer tid)) as [s2 o1]. cbn [fst] in *.
+    specialize (IH t strict late s2 ltac:(intro L; rewrite N2; unfold s1, now'; cbn [s_now]; rewrite L; apply Hl, L) (ex_intro _ _ R2)).
+    destruct (fire_due St api handle f t strict late s2) as [s3 o2]. exact IH.
+  Qed.
+
+  Lemma step_kreach fuel (s : sim St) (o : aop api) : kreachable s -> kreachable (fst (step St api handle fuel s o)).
+  Proof.
+    intros R. destruct o as [m|t|t|t|a]; cbn [step].
+    - destruct R as [g R]. eexists. exact (kr_event _ _ (EvMsg m) R I).
+    - destruct (t <? s_now s); [exact R|].
+      pose proof (fire_due_kreach fuel t false false s ltac:(discriminate) R) as F.
+      destruct (fire_due St api handle fuel t false false s) as [s' o]. cbn [fst] in *.
+      destruct F as [g F]. exists g. apply (kr_tick _ _ _ F). lia.
+    - destruct (t <? s_now s); [exact R|].
+      pose proof (fire_due_kreach fuel t true false s ltac:(discriminate) R) as F.
+      destruct (fire_due St api handle fuel t true false s) as [s' o]. cbn [fst] in *.
+      destruct F as [g F]. exists g. apply (kr_tick _ _ _ F). lia.
+    - destruct (t <? s_now s); [exact R|].
+      apply fire_due_kreach; [intros _; cbn; lia|]. destruct R as [g R]. exists g. apply (kr_tick _ _ _ R). lia.
+    - destruct R as [g R]. eexists. exact (kr_event _ _ (EvApi a) R I).
+  Qed.
+
+  Lemma run_kreach_from fuel ops : forall s, kreachable s -> kreachable (state_after St api handle fuel s ops).
+  Proof.
+    unfold state_after. induction ops as [|o ops IH]; intros s R; cbn [fold_left]; [exact R|]. apply IH, step_kreach, R.
+  Qed.
+  Theorem run_kreach fuel ops : kreachable (state_after St api handle fuel s0 ops).
+  Proof. apply run_kreach_from. exists g0. constructor. Qed.
+End SimReach.
